@@ -8,7 +8,7 @@ R5 span lifecycle events go through on_event once, under their FmtSpan flag
 """
 from rulekit import Facts, where, proj_names
 from rulekit.sym import PathEval, show
-from rulekit.query import norm_cmp, guards_of, recv_fields, result_test
+from rulekit.query import norm_cmp, guards_of, recv_fields, result_test, flag_guards
 
 FS = "<tracing_subscriber::fmt::fmt_subscriber::Subscriber<C, N, E, W> as tracing_subscriber::subscribe::Subscribe<C>>::"
 W = "tracing_subscriber::fmt::writer::"
@@ -33,6 +33,7 @@ def run(ck):
     ck.rule("C13.R2", "buffer is cleared before formatting starts", floor=1)
     ck.rule("C13.R3", "single-line formatters end each Ok path with exactly one newline write", floor=3)
     ck.rule("C13.R4", "writer combinators route as their definition denotes", floor=9)
+    ck.rule("C13.R9", "formatter options have the polarity of their name: nothing is written because a display_* flag is off", floor=4)
     ck.rule("C13.R8", "a formatting panic the caller caught does not silence the thread: get_default's re-entrancy flag is given back on unwinding (as C02.R6)", floor=3)
     ck.rule("C13.R7", "every formatter takes the spans it names from the event's own scope (explicit parent / explicit root honoured), never from the thread's current span directly", floor=4)
     ck.rule("C13.R6", "formatter/builder conversions keep every option: a rebuilt field comes from the same-named field", floor=60)
@@ -44,6 +45,7 @@ def run(ck):
     from rulekit.query import builder_carry_over
     builder_carry_over(ck, F, "C13.R6", ("tracing_subscriber::fmt::",))
     r7(ck, F)
+    r9(ck, F)
     from rules import C02
     C02.r6(ck, F, rid="C13.R8")
 
@@ -343,3 +345,68 @@ def r7(ck, F):
         else:
             ck.bad("C13.R7", key, where(b.raw["sp"]), "uses %s%s: span lifecycle records and events with an explicit parent or an explicit root would name the wrong spans"
                    % ("; ".join(naive) or "no span lookup", "" if aware else " and none of event_scope/parent_span"), fn=b.path)
+
+
+def r9(ck, F):
+    """Each display_* option guards the datum it names with the polarity of its name. The formatters legitimately write
+    layout glue (separators, a thread-id fallback for the name) on the off side of a flag, so the rule is about the
+    datum: the call that produces it -- the timestamp, the thread name / id, the file, the line, the target -- must not sit
+    on the off side of *its own* flag, unless that path is the on side of another display flag (the documented
+    `threadName` fallback to the id)."""
+    PRODUCERS = {"display_timestamp": ("format_time", "format_timestamp"), "display_thread_name": ("name",), "display_thread_id": ("id",),
+                 "display_filename": ("file",), "display_line_number": ("line",), "display_target": ("target",), "display_level": ("level",)}
+    OWNER = {"name": "thread::Thread::", "id": "thread::Thread::", "file": "metadata::Metadata::", "line": "metadata::Metadata::",
+             "target": "metadata::Metadata::", "level": "metadata::Metadata::"}
+    import re as _re
+    for i in F.impls_of("tracing_subscriber::fmt::format::FormatEvent"):
+        if not i["self_ty"].startswith("tracing_subscriber::fmt::format::Format<"):
+            continue
+        m = i["methods"].get("format_event")
+        b = F.body(m) if m else None
+        kind = i["self_ty"].split("<", 1)[1].split(",")[0].rsplit("::", 1)[-1]
+        if not ck.anchor("C13.R9", "format_event for Format<%s>" % kind, b):
+            continue
+        bad = set()
+        seen = set()
+        helper = F.body("tracing_subscriber::fmt::format::Format::<F, T>::format_timestamp")
+        for x in [b] + F.closures_of(b) + ([helper] if helper is not None else []):
+            for bb, t in x.calls():
+                meth = t["callee"].get("method")
+                pth = t["callee"].get("path") or ""
+                for flag, prods in PRODUCERS.items():
+                    if meth not in prods or (meth in OWNER and OWNER[meth] not in pth):
+                        continue
+                    g = flag_guards(x, bb)
+                    own = [v for f_, v in g if f_ == flag]
+                    other_on = [f_ for f_, v in g if f_ != flag and v]
+                    if own:
+                        seen.add(flag)
+                    if any(v == 0 or v is False for v in own) and not other_on:
+                        bad.add("%s() at %s is produced when %s is off" % (meth, where(t["sp"]), flag))
+        # JSON: the entry itself names the datum
+        JSON_KEYS = {"timestamp": "display_timestamp", "level": "display_level", "target": "display_target", "threadName": "display_thread_name",
+                     "threadId": "display_thread_id", "filename": "display_filename", "line_number": "display_line_number",
+                     "span": "display_current_span", "spans": "display_span_list"}
+        for x in [b] + F.closures_of(b):
+            for bb, t in x.calls():
+                if t["callee"].get("method") != "serialize_entry" or len(t["argv"]) < 2:
+                    continue
+                o = x.origin(t["argv"][1])
+                k = o[1].get("str") if o[0] == "const" and isinstance(o[1], dict) else None
+                flag = JSON_KEYS.get(k)
+                if not flag:
+                    continue
+                g = flag_guards(x, bb)
+                own = [v for f_, v in g if f_ == flag]
+                other_on = [f_ for f_, v in g if f_ != flag and v]
+                if own:
+                    seen.add(flag)
+                if not own and flag not in ("display_current_span", "display_span_list"):
+                    bad.add("the %r entry at %s is not guarded by %s" % (k, where(t["sp"]), flag))
+                if any(v == 0 or v is False for v in own) and not other_on:
+                    bad.add("the %r entry at %s is written when %s is off" % (k, where(t["sp"]), flag))
+        key = "Format<%s>::format_event produces no datum on the off side of its own display_* flag" % kind
+        if bad:
+            ck.bad("C13.R9", key, where(b.raw["sp"]), "; ".join(sorted(bad)[:3]), fn=b.path)
+        else:
+            ck.ok("C13.R9", key, fn=b.path, detail=sorted(seen))
